@@ -1021,31 +1021,36 @@ def rule_new_axes(ctx):
                             zlits.add(d['name'])
                         break
     rets = [x for x in walk(cfront.body(fn)) if x.get('kind') == 'ReturnStmt' and x.get('inner')]
-    anchor(len(rets) == 1, 'single return of reb_rotation_init_to_new_axes')
-    r0 = strip(rets[0]['inner'][0], casts=True)
-    if r0.get('kind') == 'DeclRefExpr' and r0['referencedDecl']['name'] in inits:
-        r0 = inits[r0['referencedDecl']['name']]
-    if not (r0.get('kind') == 'CallExpr' and callee_name(r0) == 'reb_rotation_mul'):
-        raise AnalysisError('R20.13: reb_rotation_init_to_new_axes no longer returns a product of two rotations (%s)' % render(r0)[:80])
+    anchor(len(rets) >= 1, 'return of reb_rotation_init_to_new_axes')
 
     def factor(a):
         a = strip(a, casts=True)
         if a.get('kind') == 'DeclRefExpr' and a['referencedDecl']['name'] in inits:
             return inits[a['referencedDecl']['name']]
         return a
-    second, first = (factor(a) for a in call_args(r0))
-    n += 2
-    ok1 = first.get('kind') == 'CallExpr' and callee_name(first) == 'reb_rotation_init_from_to' and render(call_args(first)[0]) == zname and render(call_args(first)[1]) in zlits
-    if not ok1:
-        ctx.report('R20.13', 'new_axes:first', where % line_of(first), 'the first rotation applied is %s, not the rotation that takes %s to the z axis' % (render(first)[:80], zname))
-    ok2 = second.get('kind') == 'CallExpr' and callee_name(second) == 'reb_rotation_init_angle_axis' and render(call_args(second)[1]) in zlits
-    if not ok2:
-        if second.get('kind') == 'CallExpr' and callee_name(second) in ('reb_rotation_init_from_to', 'reb_rotation_init_from_to_reduced', 'reb_rotation_init_angle_axis'):
-            ctx.report('R20.13', 'new_axes:second', where % line_of(second),
-                       'the second rotation (%s) is not a rotation about the z axis: a from-to rotation keeps z fixed only when its axis happens to be z, and for a new x axis that ends up antiparallel to x the axis is decided by rounding noise - %s can be mapped to -z'
-                       % (render(second)[:80], zname))
-        else:
-            raise AnalysisError('R20.13: the second factor of the product returned by reb_rotation_init_to_new_axes (%s) is not a rotation constructor the rule knows' % render(second)[:80])
+    for ret in rets:
+        r0 = factor(ret['inner'][0])
+        n += 2
+        if r0.get('kind') == 'CallExpr' and callee_name(r0) in ('reb_rotation_init_from_to', 'reb_rotation_init_from_to_reduced'):
+            # a shortcut that returns a single from-to rotation (e.g. "newz is already along z")
+            ctx.report('R20.13', 'new_axes:second', where % line_of(r0),
+                       'this return hands back a single from-to rotation (%s): it is not composed with the rotation that takes %s to +z (a %s along -z is left there), and a from-to rotation keeps z fixed only when its axis happens to be z'
+                       % (render(r0)[:80], zname, zname))
+            continue
+        if not (r0.get('kind') == 'CallExpr' and callee_name(r0) == 'reb_rotation_mul'):
+            raise AnalysisError('R20.13: reb_rotation_init_to_new_axes returns %s, which is not a product of two rotations' % render(r0)[:80])
+        second, first = (factor(a) for a in call_args(r0))
+        ok1 = first.get('kind') == 'CallExpr' and callee_name(first) == 'reb_rotation_init_from_to' and render(call_args(first)[0]) == zname and render(call_args(first)[1]) in zlits
+        if not ok1:
+            ctx.report('R20.13', 'new_axes:first', where % line_of(first), 'the first rotation applied is %s, not the rotation that takes %s to the z axis' % (render(first)[:80], zname))
+        ok2 = second.get('kind') == 'CallExpr' and callee_name(second) == 'reb_rotation_init_angle_axis' and render(call_args(second)[1]) in zlits
+        if not ok2:
+            if second.get('kind') == 'CallExpr' and callee_name(second) in ('reb_rotation_init_from_to', 'reb_rotation_init_from_to_reduced', 'reb_rotation_init_angle_axis'):
+                ctx.report('R20.13', 'new_axes:second', where % line_of(second),
+                           'the second rotation (%s) is not a rotation about the z axis: a from-to rotation keeps z fixed only when its axis happens to be z, and for a new x axis that ends up antiparallel to x the axis is decided by rounding noise - %s can be mapped to -z'
+                           % (render(second)[:80], zname))
+            else:
+                raise AnalysisError('R20.13: the second factor of the product returned by reb_rotation_init_to_new_axes (%s) is not a rotation constructor the rule knows' % render(second)[:80])
     ctx.covered('R20.13', 'to_new_axes: projection taken with the normalised new z axis; product of from_to(newz, z) and a rotation about z', n, floor=3)
 
 
